@@ -338,7 +338,7 @@ def render_token(model, level, i, env, probe):
     if name == 'QuotedString':
         return '"%s"' % (STRING_PAYLOAD[0] if STRING_PAYLOAD[0] is not None else 's%d' % i)
     if name == 'UnquotedUrl':
-        return 'url(u)'
+        return 'url(%s)' % (STRING_PAYLOAD[0] if STRING_PAYLOAD[0] is not None and re.match(r'^[a-z0-9/._-]+$', STRING_PAYLOAD[0]) else 'u%d' % i)
     if name == 'Delim':
         c = model.eval(pt('Delim', 0), model_completion=True).as_long()
         ch = chr(c) if 33 <= c < 127 and chr(c) in '.+-*>~|!$%&=^/' else '*'
@@ -365,7 +365,11 @@ def render_token(model, level, i, env, probe):
     if name == 'CDC':
         return '-->'
     if name == 'Function':
-        return mstr(model, pt('Function', 0), 'f%d' % i) + '(' + probe + ')'
+        fname = mstr(model, pt('Function', 0), 'f%d' % i)
+        if fname == 'url':
+            # `url(` + string: the tokenizer gives Function(url) with the string inside (a bare word would make it a <url-token>)
+            return 'url("%s")' % (STRING_PAYLOAD[0] if STRING_PAYLOAD[0] is not None and '"' not in STRING_PAYLOAD[0] and '\\' not in STRING_PAYLOAD[0] else 's%d' % i)
+        return fname + '(' + probe + ')'
     if name == 'ParenthesisBlock':
         return '(' + probe + ')'
     if name == 'SquareBracketBlock':
@@ -439,7 +443,7 @@ def oracle_mismatch(css, options):
         if len(found) != len(imports):
             return '%d import placeholders for %d @import rules' % (len(found), len(imports)), out
         for text, imp in zip(found, imports):
-            paths = [t[1] for t in imp[1] if t[0] == 'QuotedString']
+            paths = [t[1] for t in imp[1][:1] if t[0] in ('QuotedString', 'UnquotedUrl')] + [t[2] for t in imp[1][:1] if t[0] == 'Function' and len(t) > 2]
             if paths and urllib.parse.unquote(text) != paths[0]:
                 return 'import placeholder %r does not decode to the path %r' % (text, paths[0]), out
         return None, out
@@ -741,6 +745,19 @@ def same_pos(p, q):
     return z3.And(p.fields[0] == q.fields[0], p.fields[1] == q.fields[1])
 
 
+def import_path_token(level, i):
+    """(condition: token i is a path in string / url-token / url("string") form, the path as a term) - the three spellings CSS gives an
+    import path (the property quantifies over "string or url() form")"""
+    k = tok_kind(level, i)
+    child = '%s.%d' % (level, i)
+    fn = z3.And(k == TK['Function'], sc_env.payload_term(level, i, 'Function', 0) == z3.StringVal('url'),
+                level_len(child) == 1, tok_kind(child, 0) == TK['QuotedString'])
+    cond = z3.Or(k == TK['QuotedString'], k == TK['UnquotedUrl'], fn)
+    term = z3.If(k == TK['QuotedString'], sc_env.payload_term(level, i, 'QuotedString', 0),
+                 z3.If(k == TK['UnquotedUrl'], sc_env.payload_term(level, i, 'UnquotedUrl', 0), sc_env.payload_term(child, 0, 'QuotedString', 0)))
+    return cond, term
+
+
 def analyse_import(exe, q, chunks, afs, sign):
     """C18: the placeholder of one `@import` (import sign configured)"""
     tgt = 'parse_at_rule/@import'
@@ -758,8 +775,8 @@ def analyse_import(exe, q, chunks, afs, sign):
             idx = [i for i, _ in chunks]
             s_ok = z3.BoolVal(False)
             if len(idx) >= 2:
-                s_ok = tok_kind('r', idx[1]) == TK['QuotedString']
-            obs.append(Ob(['C18'], 'import-lost', '@import "<string>" ... produces neither a placeholder nor a diagnostic', q, s_ok, tgt))
+                s_ok = import_path_token('r', idx[1])[0]
+            obs.append(Ob(['C18'], 'import-lost', '@import <string | url> ... produces neither a placeholder nor a diagnostic', q, s_ok, tgt))
         # once the media condition has started (the @media keyword is out) everything up to `;` belongs to it: only a `{` block may be rejected
         media_out = [e for e in outs if synth_kind(e) == 'AtKeyword' and is_media_kw(e)]
         if media_out:
@@ -781,11 +798,11 @@ def analyse_import(exe, q, chunks, afs, sign):
     if s is None:
         obs.append(Ob(['C18'], 'import-comment', 'placeholder without a path token', q, z3.BoolVal(True), tgt))
         return obs
-    path_term = sc_env.payload_term('r', s, 'QuotedString', 0)
+    is_path, path_term = import_path_token('r', s)
     content = tok_of(c[3])[2].fields[0]
     want = z3.Concat(sign.payload_fn('Some', 0), z3.StringVal(' '), sc_env.urlenc(path_term))
     obs.append(Ob(['C18'], 'import-comment', 'placeholder text is not "<sign> <percent-encoded path of the string token>"', q, content != want, tgt))
-    obs.append(Ob(['C18'], 'import-comment', 'path token is not the quoted string', q, tok_kind('r', s) != TK['QuotedString'], tgt))
+    obs.append(Ob(['C18'], 'import-comment', 'path token is neither a string nor a url', q, z3.Not(is_path), tgt))
     before, after = outs[:ci], outs[ci + 1:]
     opens = [e for e in before if synth_kind(e) == 'CurlyBracketBlock']
     closes = [e for e in after if synth_kind(e) == 'CloseCurlyBracket']
